@@ -397,7 +397,7 @@ def run(ctx):
     # a tuple display rendered as a bare comma-separated list (the key of a subscript, a parenthesised tuple) needs the
     # trailing comma when it has exactly one element: `d[x,]` is not `d[x]`, `(x,)` is not `(x)`
     from ..typestate import eval_test
-    from ..q import cfg_node_of
+    from ..q import cfg_node_of, resolve_local, resolve_names
     sites = 0
     for name, f in sorted(pt.methods.items()):
         if not name.startswith('post'): continue
@@ -414,7 +414,7 @@ def run(ctx):
         for c in calls_in(f.node):
             if not (isinstance(c.func, ast.Attribute) and c.func.attr == 'join' and isinstance(c.func.value, ast.Constant) and isinstance(c.func.value.value, str)
                     and ',' in c.func.value.value and c.args and isinstance(c.args[0], (ast.ListComp, ast.GeneratorExp))): continue
-            it = c.args[0].generators[0].iter
+            it = resolve_local(f.node, c.args[0].generators[0].iter)          # `elts = x.elts; ', '.join(e.src for e in elts)`
             if isinstance(it, ast.Attribute) and it.attr == 'elts' and norm(it.value) in tuple_typed: fld = 'elts'
             elif isinstance(it, ast.Attribute) and it.attr == 'value' and norm(it.value) in const_tuples: fld = 'value'
             else: continue
@@ -433,7 +433,7 @@ def run(ctx):
             def edge_ok(x, y, lab):
                 n_ = g.nodes[x]
                 if n_.kind != 'test' or lab not in ('T', 'F'): return True
-                v = eval_test(n_.ast, atom)
+                v = eval_test(resolve_names(f.node, n_.ast), atom)
                 return v is None or v == (lab == 'T')
             here = cfg_node_of(g, c)
             r = g.reach([g.entry], edge_ok=edge_ok)
